@@ -87,8 +87,15 @@ class _ApplicationWithoutMeanOperator(EndomorphicOperator):
 
     def apply(self, x, mode):
         self._check_input(x, mode)
-        mean = x.s_mean()
-        return mean + self._op.apply(x - mean, mode)
+        if mode == self.TIMES:
+            mean = x.s_mean()
+            return mean + self._op.apply(x - mean, mode)
+        # Adjoint of x -> P x + op((1 - P) x) with the volume-weighted mean
+        # P = 1 w^T / V: P^H + (1 - P^H) op^H
+        from ..sugar import full
+        res = self._op.apply(x, mode)
+        wgt = full(self._domain, 1.).weight(1)
+        return res + wgt*((x - res).s_sum()/wgt.s_sum())
 
     def __repr__(self):
         from ..utilities import indent
